@@ -145,3 +145,84 @@ Proof.
     pose proof (extract_embed_legal (cp_net cp) w Lp Lw) as X2.
     rewrite Ee in X1. rewrite X1 in X2. injection X2 as ->. exact R.
 Qed.
+
+(* ---------------- forward, then reverse (session 4) ----------------
+   Every AAAA the handler synthesises can be asked back: the PTR route's
+   decoding of its ip6.arpa name succeeds — whatever the number and nesting
+   of the configured prefixes — and yields an IPv4 address whose embedding
+   under a configured prefix (not excluded there) is that address.  (The
+   driver ties this with the "-of-synth" cases: an address just synthesised is
+   asked back under the same configuration.) *)
+Lemma to4_some ip v4 : to4 ip = Some v4 -> bytes_ok ip -> length v4 = 4%nat /\ bytes_ok v4.
+Proof.
+  unfold to4. destruct (length ip =? 4)%nat eqn:E4.
+  - intros H B. injection H as <-. apply Nat.eqb_eq in E4. auto.
+  - destruct ((length ip =? 16)%nat && is_mapped ip) eqn:E; [|discriminate].
+    intros H B. assert (skipn 12 ip = v4) as <- by congruence. apply andb_prop in E as [E _]. apply Nat.eqb_eq in E.
+    split; [rewrite skipn_length; lia|].
+    unfold bytes_ok in *. rewrite <- (firstn_skipn 12 ip) in B. apply Forall_app in B. tauto.
+Qed.
+
+Lemma synthesised_address_reverses_lem cf q m mark work ar cut r o t e :
+  Forall (fun p => legal_prefix (cp_net p) /\ bytes_ok (n_ip (cp_net p))) (c_prefixes (compile cf)) ->
+  (forall o' ta ip, In (RA o' ta ip) (m_answer ar) -> bytes_ok ip) ->
+  x_path (serve cur cf q (Some (m, mark)) work (QResp ar) cut) = PSynth ->
+  x_reply (serve cur cf q (Some (m, mark)) work (QResp ar) cut) = Some r ->
+  In (RAAAA o t e) (r_answer r) ->
+  exists w, ptr_target cur (compile cf) (lower (arpa_name e)) = Some w
+    /\ exists p, In p (c_prefixes (compile cf)) /\ e = embed (cp_net p) w /\ length w = 4%nat
+                 /\ should_exclude_a (compile cf) w p = false.
+Proof.
+  intros F BA HP HR HI.
+  destruct (synthesised_aaaa_sound cur _ _ _ _ _ _ _ _ _ _ _ HP HR HI) as ((p & ta & ip & v4 & Hp & Ha & T & -> & W) & _).
+  pose proof F as F'. rewrite Forall_forall in F'. destruct (F' p Hp) as (Lp & Bp).
+  destruct (to4_some _ _ T (BA _ _ _ Ha)) as (L4 & B4).
+  assert (should_exclude_a (compile cf) v4 p = false) as X.
+  { unfold should_exclude_a. destruct (compile_prefixes_valid cf p Hp) as (_ & -> & _).
+    destruct (is_well_known (cp_net p)) eqn:K; [cbn [andb]; apply W; reflexivity | reflexivity]. }
+  destruct (ptr_target_translates (compile cf) p v4 Hp Lp Bp L4 B4 X) as (w & P).
+  exists w. split; [exact P|].
+  assert (bytes_ok (embed (cp_net p) v4)) as Be by (apply bytes_ok_embed_legal; auto).
+  unfold ptr_target in P. rewrite lower_arpa_name in P by exact Be.
+  assert (length (embed (cp_net p) v4) = 16%nat) as Le by (apply embed_layout_legal; auto).
+  rewrite parse_arpa_name in P by assumption.
+  destruct (ptr_find_embedding_legal _ _ _ _ F Le Be P) as (p' & I & E & Lw & Xw). eauto.
+Qed.
+
+(* ---------------- excluded zones, however they are spelled (session 4) ----------------
+   An exclude_zones entry counts whatever its letter case, the blanks around it
+   and with or without the final dot (compileConfig: TrimSpace . ToLower, then
+   the dot), and a query counts whatever its letter case: a name that is the
+   zone or ends in "." ++ zone is never synthesised for, and not even looked up. *)
+Definition fq (z : list N) : list N := if has_suffix z [46] then z else z ++ [46].
+
+Lemma zone_compiled cf z :
+  In z (cf_zones cf) -> trim_space (lower z) <> [] -> In (fq (trim_space (lower z))) (c_zones (compile cf)).
+Proof.
+  intros I NE. unfold compile. cbn [c_zones]. apply in_flat_map. exists z. split; [exact I|].
+  unfold norm_zone, fq. destruct (trim_space (lower z)) as [|c r] eqn:E; [congruence|].
+  destruct (has_suffix (c :: r) [46]); left; reflexivity.
+Qed.
+
+Lemma zone_excluded_in c qn zn :
+  In zn (c_zones c) -> qn = zn \/ has_suffix qn (46 :: zn) = true -> zone_excluded c qn = true.
+Proof.
+  intros I H. unfold zone_excluded. apply existsb_exists. exists zn. split; [exact I|].
+  destruct H as [-> | ->]; [rewrite list_eqb_refl; reflexivity | apply orb_true_r].
+Qed.
+
+Lemma excluded_zone_no_synthesis cf q down work al cut z :
+  In z (cf_zones cf) -> trim_space (lower z) <> [] ->
+  lower (q_name q) = fq (trim_space (lower z))
+  \/ has_suffix (lower (q_name q)) (46 :: fq (trim_space (lower z))) = true ->
+  x_path (serve cur cf q down work al cut) <> PSynth
+  /\ (q_type q = type_aaaa -> x_aq (serve cur cf q down work al cut) = false).
+Proof.
+  intros I NE H.
+  assert (zone_excluded (compile cf) (lower (q_name q)) = true) as Z
+    by (eapply zone_excluded_in; [apply zone_compiled; eassumption | exact H]).
+  split.
+  - intros HP. destruct (synth_only_when_lem cur cf q down work al cut (or_introl HP)) as (_ & _ & Z' & _). congruence.
+  - intros T. destruct (x_aq (serve cur cf q down work al cut)) eqn:A; [|reflexivity].
+    destruct (synth_only_when_lem cur cf q down work al cut (or_intror (conj A T))) as (_ & _ & Z' & _). congruence.
+Qed.
